@@ -23,7 +23,7 @@ TRUSTED = [
 NPROC = 16
 
 
-def pipelines(ctx, tier, extra_env=None):
+def pipelines(ctx, tier, extra_env=None, budget=3000):
     """client_store slice k/N | driver -   for k in 0..N-1; returns (summary dict, fail lines, ok)"""
     scratch = os.path.join(ctx.work, "dbs")
     os.makedirs(scratch, exist_ok=True)
@@ -33,11 +33,15 @@ def pipelines(ctx, tier, extra_env=None):
         env.update(extra_env)
     procs = []
     for k in range(NPROC):
-        cmd = f"set -o pipefail; timeout 3000 {ctx.bin('client_store')} slice {k} {NPROC} {scratch} | timeout 3000 {vlib.DRIVER} -"
+        cmd = f"set -o pipefail; timeout {budget} {ctx.bin('client_store')} slice {k} {NPROC} {scratch} | timeout {budget} {vlib.DRIVER} -"
         procs.append(subprocess.Popen(["bash", "-c", cmd], stdout=subprocess.PIPE, stderr=subprocess.STDOUT, text=True, env=env))
     total, fails, ok = {}, [], True
     for k, p in enumerate(procs):
         out, _ = p.communicate()
+        if p.returncode == 124 and budget < 3000:
+            ctx.notes.append(f"widened search: pipeline {k} stopped after its {budget} s budget")
+            fails += [l for l in out.splitlines() if l.startswith("FAIL")]
+            continue
         if p.returncode != 0:
             ok = False
             ctx.broken.append({"kind": "correspondence", "what": f"client_store pipeline {k} failed (rc={p.returncode})", "detail": out[-800:]})
@@ -85,7 +89,7 @@ def run(ctx):
         tiers = ["thorough"] if thorough else ["quick"]
         total, mon, corr = {}, [], []
         for t in tiers:
-            s, fails, ok = pipelines(ctx, t)
+            s, fails, ok = pipelines(ctx, t, budget=(600 if (t == "thorough" and not thorough) else 3000))
             ctx.log(f"client_store[{t}]: {s}")
             for a, b in s.items():
                 total[a] = total.get(a, 0) + b
